@@ -2,6 +2,8 @@ import N2V.Model.Basic
 import N2V.Model.Canon
 import N2V.Model.Depfile
 import N2V.Model.Render
+import N2V.Model.Proto
+import N2V.Monitors
 open N2V
 
 def showRes (r : Res Bytes) : String :=
@@ -75,6 +77,22 @@ def depfileMon (expected : Depfile.Entries) (impl : List String) : List (String 
     | none => [("parseImpl", false)]
   | _ => [("structuredAccepted", false)]
 
+def handleSched (case impl : List String) : String :=
+  let parsed := (do
+    let a ← Proto.argsD
+    let g ← Proto.graphD
+    pure (a, g)).run case
+  match parsed with
+  | some ((a, g), []) =>
+    match (Proto.implD.run impl) with
+    | some (obs, []) =>
+      let c := Proto.choicesOf a.adopt obs.trace
+      let (s, out) := Run.build g a c
+      let v := Mon.verdicts g a (obs.result.splitOn " ") obs.trace
+      Proto.showOutcome out ++ " " ++ Proto.showTrace s.trace.reverse ++ mons v.toList
+    | _ => "bad-impl"
+  | _ => "bad-case"
+
 /-- `case` tokens and the implementation's observed tokens -> model line ++ monitor verdicts. -/
 def handle (case impl : List String) : String :=
   match case with
@@ -144,6 +162,7 @@ def handle (case impl : List String) : String :=
         | _ => [("noPanic", false)]
       "ok " ++ hexOfBytes (Render.progressBar ⟨w, r, q, ru, d, f⟩ n) ++ mons mon
     | _ => "bad-case"
+  | "sched" :: rest => handleSched rest impl
   | _ => "bad-op"
 
 partial def loop (h : IO.FS.Stream) (out : IO.FS.Stream) : IO Unit := do
